@@ -16,7 +16,16 @@ NAME_SCHEMES = {
     'f': lambda i: ['q9', 'q10', 'trap9', 'trap10', 'q1', 'trap1'][i],    # numbered names around a decimal carry (fresh-name generators)          # digit names: a name + a digit letter is another name   # names that are substrings of each other
     'k': lambda i: ['accept', 'reject', 'blank', 'tape_symbols', 'stack_symbols'][i],   # keywords of OTHER formats: legal NFA/PDA state names
     'z': lambda i: ['r', 'a', 'b', 'f', 'c', 'd'][i],   # single letters (C15 back-pointer order)
+    'u': lambda i: ['q₀', 'q₁', 'p¹', '①', 'qγ', 'Ω'][i],   # word-character names with non-decimal digit characters / outside latin-1
+    'g': lambda i: ['start', 'start2', 'accept', 'accept2', 'start1', 'accept1'][i],   # names the library itself generates as fresh (prefix + count)
+    'K': lambda i: ['Final', 'Initial', 'States', 'Epsilon', 'Blank', 'Accept'][i],    # keywords in another letter case
 }
+
+# Presentation knobs (set by mc.props.common:t_knobs around a whole task).  They change HOW an instance is handed
+# to the library, never WHICH instance: 'dorder' = insertion order of the transition dict ('qa' state-major,
+# 'aq' letter-major so that the keys of one state are not adjacent, 'rev' reversed); 'shared' = equal target sets
+# of an NFA are one shared set object.
+KNOBS = {'dorder': None, 'shared': False}      # dorder None: the builder's default (state-major for DFA/NFA)
 
 
 def names(scheme, n, offset=0):
@@ -67,7 +76,20 @@ def dfas(n, k, start=0, step=1):
         yield idx, dfa_spec(n, k, idx)
 
 
-ALPHABETS = {'ab': ['a', 'b', 'c'], '01': ['0', '1', '2']}
+ALPHABETS = {'ab': ['a', 'b', 'c'], '01': ['0', '1', '2'],
+             'w': ['a', 'b', 'c', 'd', 'e', 'f', 'g'],   # wide: CPython orders a 5-7 element set and its copy differently
+             'gr': ['γ', 'δ', 'λ'],                       # letters outside latin-1 (not cached single-character objects)
+             'eps': ['e', 'p', 's']}                      # words over it spell tokens ('eps')
+
+
+def dorder(items, keyf):
+    """items: list of (key, value) in state-major order; keyf(key) -> (state index, letter index)."""
+    o = KNOBS['dorder']
+    if o == 'aq':
+        return sorted(items, key=lambda kv: (keyf(kv[0])[1], keyf(kv[0])[0]))
+    if o == 'rev':
+        return list(reversed(items))
+    return items
 
 
 def dfa_parts(spec, scheme='s', letters='ab'):
@@ -85,14 +107,16 @@ def dfa_parts(spec, scheme='s', letters='ab'):
 
 
 def fresh(x):
-    """An equal but distinct str object (parsers produce such strings; code must compare names with ==, not `is`)."""
-    return ''.join(list(x)) if len(x) > 1 else x
+    """An equal but distinct str object (parsers produce such strings; code must compare names with ==, not `is`).
+    One-character latin-1 strings are shared objects in CPython and stay so."""
+    return (x + ' ')[:-1] if x else x
 
 
 def build_dfa(spec, scheme='s', letters='ab'):
     from gambatools.dfa import DFA
     Q, Sg, delta, q0, F = dfa_parts(spec, scheme, letters)
-    return DFA(set(fresh(q) for q in Q), set(Sg), {(fresh(p), a): fresh(q) for (p, a), q in delta.items()}, fresh(q0), set(fresh(q) for q in F))
+    items = dorder(list(delta.items()), lambda k: (Q.index(k[0]), Sg.index(k[1])))
+    return DFA(set(fresh(q) for q in Q), set(fresh(a) for a in Sg), {(fresh(p), fresh(a)): fresh(q) for (p, a), q in items}, fresh(q0), set(fresh(q) for q in F))
 
 
 # ---------------------------------------------------------------- NFA(n,k,t)
@@ -168,8 +192,13 @@ def build_nfa(spec, scheme='s', eps='', enc='sparse', letters='ab'):
             for q in Q:
                 for a in Sg + [eps]:
                     delta[q, a] = set()
-    for (p, a, q) in T:
+    order = Sg + [eps]
+    for ((p, a), q) in dorder([((p, a), q) for (p, a, q) in T], lambda k: (Q.index(k[0]), order.index(k[1]))):
         delta[p, a].add(fresh(q))
+    if KNOBS['shared']:
+        pool = {}
+        for k in list(delta):
+            delta[k] = pool.setdefault(frozenset(delta[k]), delta[k])
     return NFA(set(fresh(q) for q in Q), set(Sg), delta, fresh(q0), set(fresh(q) for q in F), eps)
 
 
